@@ -4,6 +4,7 @@ import PhotVerif.Driver.ApSum
 import PhotVerif.Driver.Detect
 import PhotVerif.Driver.Segm
 import PhotVerif.Driver.Deblend
+import PhotVerif.Driver.Lazy
 namespace PhotVerif.Driver
 
 /-- driver state: the objects that live across lines (state-machine models) -/
@@ -11,7 +12,7 @@ structure DState where
   segm : Option PhotVerif.Model.Segm.State := none
 
 def handlers : List (String → List String → Option String) :=
-  [handleGeom, handleMask, handleApSum, handleDetect, handleDeblend]
+  [handleGeom, handleMask, handleApSum, handleDetect, handleDeblend, handleLazy]
 
 def dispatch (st : DState) (line : String) : DState × String :=
   match tokens line with
